@@ -289,6 +289,14 @@ pub fn jobs(prop: &str, tier: &str) -> Vec<Job> {
             // coded regions "for data covered by the statistics they were built from": in-statistics strings
             // must be accepted and read back, also with hundreds of dictionary entries / three generations
             dict_seed_jobs(&mut out, &[1, 6, 7], if thorough { 2 } else { 1 });
+            // Huffman-coded containers across generations: items arrive as slices and as read items of raw and
+            // coded containers; a container merged from the live one must accept what was pushed into that one
+            {
+                use crate::m_huff::*;
+                for p in [small_profiles(3).into_iter().find(|p| p.name == "counts[1, 2, 3]").unwrap(), fib_profile(6)] {
+                    out.push(job(move || Box::new(HuffMachine::<u8>::new(p.clone(), 2)), Mode::Bfs(BfsCfg::new(if thorough { 3 } else { 2 })), false));
+                }
+            }
         }
         "C02" => {
             let mut c = LifeCfg::new("C02");
@@ -382,6 +390,7 @@ pub fn jobs(prop: &str, tier: &str) -> Vec<Job> {
                 for k in [18, 24, 28] {
                     add8(fib_profile(k), 2, 1, &mut out);
                 }
+                add8(huge_total_profile(), 2, 0, &mut out);
                 add8(empty.clone(), 3, 2, &mut out);
                 add16(uniform_profile(257, 1), 2, 1, &mut out);
                 add16(uniform_profile(300, 2), 2, 1, &mut out);
@@ -397,6 +406,7 @@ pub fn jobs(prop: &str, tier: &str) -> Vec<Job> {
                 add8(fib_profile(10), 2, 1, &mut out);
                 add8(fib_profile(18), 1, 0, &mut out);
                 add8(fib_profile(28), 1, 0, &mut out);
+                add8(huge_total_profile(), 1, 0, &mut out);
                 add8(empty.clone(), 2, 1, &mut out);
                 add16(uniform_profile(257, 1), 1, 0, &mut out);
                 add16(uniform_profile(300, 1), 2, 1, &mut out);
@@ -418,7 +428,7 @@ pub fn jobs(prop: &str, tier: &str) -> Vec<Job> {
                 for seed in 0..3 {
                     add(seed, Alphabet::AllBytes, 2, 0);
                 }
-                for seed in 3..8 {
+                for seed in 3..9 {
                     add(seed, Alphabet::Relative, 3, 1);
                 }
             } else {
@@ -428,7 +438,7 @@ pub fn jobs(prop: &str, tier: &str) -> Vec<Job> {
                 for seed in 0..3 {
                     add(seed, Alphabet::AllBytes, 1, 0);
                 }
-                for seed in 3..8 {
+                for seed in 3..9 {
                     add(seed, Alphabet::Relative, 1, 1);
                 }
             }
@@ -508,6 +518,17 @@ pub fn jobs(prop: &str, tier: &str) -> Vec<Job> {
             let devs: &[(usize, usize, u8)] = if thorough { &[(48, 2, 0), (3000, 0, 0)] } else { &[(24, 1, 0), (1500, 0, 0)] };
             life(&mut out, c, if thorough { 5 } else { 4 }, devs, &|i| i.has_heap, &|_, _| {});
             stacks(&mut out, StackOracle::Sequence, if thorough { 5 } else { 3 }, &[], 3);
+            // one allocation of more than 2^26 elements, then clear
+            out.push(job(
+                || Box::new(crate::m_alloc::HugeClearMachine::<crate::spec::Owned<u8>>::new(|n| vec![7u8; n])),
+                Mode::Bfs(BfsCfg::new(2)),
+                false,
+            ));
+            out.push(job(
+                || Box::new(crate::m_alloc::HugeClearMachine::<crate::spec::Str<crate::spec::Owned<u8>>>::new(|n| "x".repeat(n))),
+                Mode::Bfs(BfsCfg::new(2)),
+                false,
+            ));
         }
         "C12" => {
             let mut c = LifeCfg::new("C12");
@@ -534,6 +555,12 @@ pub fn jobs(prop: &str, tier: &str) -> Vec<Job> {
             c.clone_replace = true;
             c.n_forms = usize::MAX;
             life(&mut out, c, if thorough { 4 } else { 2 }, &[], &|_| true, &|_, _| {});
+            // IntoOwned laws on Huffman-encoded items (codes longer than a byte included)
+            {
+                use crate::m_huff::*;
+                out.push(job(|| Box::new(HuffMachine::<u8>::new(fib_profile(10), 0)), Mode::Bfs(BfsCfg::new(if thorough { 2 } else { 1 })), false));
+                out.push(job(|| Box::new(HuffMachine::<u16>::new(uniform_profile(257, 1), 0)), Mode::Bfs(BfsCfg::new(if thorough { 2 } else { 1 })), false));
+            }
         }
         "C15" => {
             let mut c = LifeCfg::new("C15");
